@@ -151,7 +151,7 @@ func cmdCheck(args []string) int {
 				}
 				for _, cl := range ct.Clauses {
 					for _, tg := range cl.Tags {
-						if tg == prop {
+						if tg == prop || tg == "only:"+prop {
 							ks = append(ks, key)
 						}
 					}
@@ -338,8 +338,21 @@ func cmdCheck(args []string) int {
 				addViolation(fn+"#under-contract", "ledgered function is no longer under contract for this property (contract, sweep line or tag removed, or function removed/renamed)", nil, nil)
 			}
 		}
+		// call-site / loop ordinals ("@N") may shift under harmless edits (a reordered or added
+		// call): a ledgered clause obligation is present if the same clause still yields an
+		// obligation of the same kind in the same function
+		stripOrd := func(n string) string {
+			if i := strings.LastIndex(n, "@"); i >= 0 && i > strings.LastIndex(n, "#") {
+				return n[:i]
+			}
+			return n
+		}
+		present := map[string]bool{}
+		for n := range aggs {
+			present[stripOrd(n)] = true
+		}
 		for _, name := range ledger.Obligations {
-			if _, ok := aggs[name]; !ok {
+			if _, ok := aggs[name]; !ok && !present[stripOrd(name)] {
 				if _, k := knownBy[name]; k {
 					continue
 				}
